@@ -346,11 +346,14 @@ impl SliceRange {
         if self.step > 0 {
             IndexRange::new(resolved.start, resolved.end as isize, self.step)
         } else {
-            IndexRange::new(
-                dim_size - 1 - resolved.start,
-                dim_size as isize - 1 - resolved.end as isize,
-                self.step,
-            )
+            let start = dim_size as isize - 1 - resolved.start as isize;
+            let end = dim_size as isize - 1 - resolved.end as isize;
+            if start < 0 {
+                // The start index precedes the first element (eg. a start of
+                // `-dim_size - 1` or an empty dimension), so the range is empty.
+                return IndexRange::new(0, 0, self.step);
+            }
+            IndexRange::new(start as usize, end, self.step)
         }
     }
 
